@@ -119,6 +119,19 @@ CLAIMS = {
              "two entries under one delegation id cannot be expressed) is recorded; one defect repaired (all-zero details).",
         technique="contracts on the real codec / regrouping functions checked by bounded symbolic execution (pyvc), z3; replay on real code",
         design_ref="DESIGN.md section 3 C12"),
+    'C19': dict(
+        text="Every statement-issuing operation of Neo4jPropertyGraph (29 operations) is executed on its real source around a recording "
+             "stand-in for the driver; for every statement on every path: the text term (built by the real f-strings and "
+             "concatenations, kept symbolic) mentions no VALUE symbol -- data independence for all values, decided on the term; every "
+             "$parameter named in the text is supplied; with sample identifiers substituted the text is balanced, has no template "
+             "residue and every variable it uses is bound. Seven operations splice values (known findings KF-C19-1..7, each with a "
+             "companion obligation that fails as soon as any OTHER value reaches the text); two malformed statements repaired.",
+        note="Cypher well-formedness is a light tokenizer (balance, residue, bound variables), not a Cypher parser; arguments are "
+             "classified as identifiers or values by the contract; behaviour against a real server is out of reach (no Neo4j here); "
+             "Neo4jCBMGraph / importer statements beyond delete are not yet covered.",
+        technique="contract-based deductive verification: symbolic execution of the real statement-building code with string-provenance "
+                  "terms (2-safety decided on the term), native two-value replay through a recording driver",
+        design_ref="DESIGN.md section 3 C19"),
     'C16': dict(
         text="For every label field the real Labels._set_fields is proved, for all strings, to accept exactly the documented domain "
              "(published pattern matched against the whole string with CPython regex semantics incl. Unicode classes, plus the "
